@@ -8,13 +8,14 @@ import json
 
 PARAMS = ["tau", "tau_s", "C_m", "g_L", "a", "b", "w", "E_L", "I_e"]
 PARAM_VALUES = {"tau": "0.5", "tau_s": "0.25", "C_m": "2", "g_L": "0.75", "a": "1.5", "b": "0.5", "w": "2", "E_L": "-0.5", "I_e": "1.25"}
-COEFFS = ["-1/tau", "-1/tau_s", "1/C_m", "-g_L/C_m", "a", "-a*b", "2", "-3", "1/2", "-w**2", "-1", "1", "-2/tau", "b/tau_s", "-1/(tau*C_m)"]
+COEFFS = ["-1/tau", "-1/tau_s", "1/C_m", "-g_L/C_m", "a", "-a*b", "2", "-3", "1/2", "-w**2", "-1", "1", "-2/tau", "b/tau_s", "-1/(tau*C_m)",
+          "10", "100", "-10", "1000", "1.0", "-0.5"]
 DECAYS = ["-1/tau", "-1/tau_s", "-g_L/C_m", "-a", "-2", "-1/2", "-1", "-2/tau", "-3"]
-OFFSETS = ["E_L/tau", "I_e/C_m", "1", "3/2", "I_e", "-E_L*g_L/C_m", "2.5"]
+OFFSETS = ["E_L/tau", "I_e/C_m", "1", "3/2", "I_e", "-E_L*g_L/C_m", "2.5", "E_L + I_e", "I_e/C_m + E_L/tau", "1 + a", "a + b + 1", "E_L - 2*I_e", "42"]
 NAMES = ["V_m", "x", "y", "z", "g_ex", "I_in", "u", "q", "r1", "s_2"]
 SHAPES = ["isolated", "chain", "fan_in", "fan_out", "cycle", "antisym", "nonadjacent", "offset_single", "offset_in_group",
           "depends_on_offset", "numeric_dep_analytic", "analytic_dep_numeric", "higher_order", "higher_order_offset", "mixed_nonlinear",
-          "time_dependent", "dense3"]
+          "time_dependent", "dense3", "chain_to_nonlinear", "chain_from_offset", "const_drift", "lin_and_nonlin_same_var"]
 
 
 def nonlinear_term(rng, me, others):
@@ -114,6 +115,29 @@ def make_truth(rng, shape=None, n=None):
     elif shape == "time_dependent":
         ent(a, lin={a: dec()}, tterm=rng.choice(["t", "a*t", "sin(t)", "t/tau"]))
         ent(b, lin={b: dec()})
+    elif shape == "chain_to_nonlinear":
+        # w <- v <- u, u not analytically solvable (depth >= 2 so that the verdict has to travel)
+        ent(a, lin={a: dec(), b: cf()})
+        ent(b, lin={b: dec(), c: cf()})
+        if rng.random() < 0.5:
+            ent(c, lin={c: dec()}, nonlin=[nonlinear_term(rng, c, [])])
+        else:
+            ent(c, lin={c: dec(), d: cf()})
+            ent(d, lin={d: dec()}, nonlin=[nonlinear_term(rng, d, [])])
+    elif shape == "chain_from_offset":
+        # offset node x; y reads x (documented exception); z, k read y, z: must follow y into the numeric solver
+        ent(a, lin={a: dec()}, off=rng.choice(OFFSETS))
+        ent(b, lin={b: dec(), a: cf()})
+        ent(c, lin={c: dec(), b: cf()})
+        if rng.random() < 0.5:
+            ent(d, lin={d: dec(), c: cf()})
+    elif shape == "const_drift":
+        ent(a, lin={}, off=rng.choice(OFFSETS))
+        if rng.random() < 0.6:
+            ent(b, lin={b: dec()})
+    elif shape == "lin_and_nonlin_same_var":
+        ent(a, lin={a: dec(), b: cf()}, nonlin=["%s*%s" % (a, b), "%s**2" % a][: rng.choice([1, 2])])
+        ent(b, lin={b: dec(), a: cf()}, nonlin=rng.choice([[], ["%s**3" % b]]))
     elif shape == "dense3":
         for nm in (a, b, c):
             ent(nm, lin={a: cf(), b: cf(), c: cf()})
